@@ -13,12 +13,13 @@ FAULTS = [
     ("operand-kind", ["  ldi 5, 5", "  mov r1, 7", "  ld r1, r2", "  inc X", "  out r1, r1"]),
     ("operand-range", ["  ldi r1, 5", "  ldi r16, 300", "  adiw r24, 64", "  sbi 32, 1", "  sbrc r1, 8", "  movw r1, r2", "  adiw r25, 1", "  in r1, 64"]),
     ("operand-count", ["  mov r1", "  nop r1", "  ldi r16", "  ret 5"]),
-    ("undefined-symbol-instruction", ["  ldi r16, undefined_sym", "  rjmp undefined_label", "  lds r16, nosuch + 1"]),
-    ("undefined-symbol-data", ["  .db undefined_sym", "  .dw 1, undefined_sym", "  .dq nosuch", "  .dw frameequ, framevar, nosuch", "  .db low(nosuch)"]),
+    ("undefined-symbol-instruction", ["  ldi r16, undefined_sym", "  rjmp undefined_label", "  lds r16, nosuch + 1", "  ldi r16, 0 && undefined_sym",
+                                      "  ldi r16, 1 || undefined_sym", "  ldi r16, 0 * undefined_sym", "  ldi r16, low(0 & undefined_sym)"]),
+    ("undefined-symbol-data", ["  .db undefined_sym", "  .dw 1 || nosuch", "  .dw 0 && nosuch", "  .db (1 || nosuch) + 1", "  .dw 1, undefined_sym", "  .dq nosuch", "  .dw frameequ, framevar, nosuch", "  .db low(nosuch)"]),
     ("data-range", ["  .db 256", "  .dw 65536", "  .db -129", "  .dd 4294967296", "  .dw \"str\""]),
     ("undefined-symbol-set", [".set newset = undefined_sym + 1", ".set framevar = undefined_sym", ".set FrameVar = framevar + undefined_sym",
                               ".set framevar = framevar / (framevar - framevar)", ".set framevar = low(undefined_sym)"]),
-    ("undefined-symbol-if", [".if undefined_sym\n.endif", ".if 0\n.elif undefined_sym\n.endif"]),
+    ("undefined-symbol-if", [".if undefined_sym\n.endif", ".if 0\n.elif undefined_sym\n.endif", ".if 1 || undefined_sym\n.endif", ".if 0 && undefined_sym\n.endif"]),
     ("duplicate-label", ["main_label: nop"]),
     ("error-directive", [".error \"stop\""]),
     ("unknown-directive", [".frobnicate 1", ".list"]),
@@ -43,7 +44,7 @@ def run(res):
     vh, exe = P.base(res, PROP)
     rng = random.Random(res.seed)
     cases = []   # (text, kind, expected line or None for "valid")
-    nprog = 120 if res.tier == "quick" else 6000
+    nprog = 120 if res.tier == "quick" else 20000
     # "an otherwise valid program": keep only generated bases that build
     cands = [valid_program(rng) for _ in range(nprog * 3)]
     pre = progrun.run_texts(vh, exe, ["\n".join(b) + "\n" for b in cands])
@@ -56,7 +57,7 @@ def run(res):
             ls = base[:pos] + v.split("\n") + base[pos:]
             # the line the error must name: the (first) injected line; for duplicate labels the second definition
             want = pos + 1
-            if kind == "undefined-symbol-if" and v.startswith(".if 0"):
+            if kind == "undefined-symbol-if" and "\n.elif" in v:
                 want = pos + 2
             if kind == "undef-unknown" and "\n" in v:
                 want = pos + 2
